@@ -287,6 +287,7 @@ impl Drop for TVal {
         }
         ctx::note_drop(self.id);
         self.canary = 0xDEAD_DEAD_DEAD_DEAD;
+        ctx::drop_callback();
     }
 }
 
